@@ -26,6 +26,27 @@ from dask_array._utils import validate_axis
 from dask_array.io._from_map import _dumps5
 
 
+def _dumps5_by_value(obj):
+    """``_dumps5`` without pickle's memo: the bytes depend on the VALUE only.
+
+    A plain pickle writes the second occurrence of one tuple object as a
+    back-reference, so ``x.rechunk((a, a))`` (one tuple used for two axes)
+    and ``x.rechunk(((5, 5), (5, 5)))`` pickled -- and were named --
+    differently although the chunks are equal.  The naming payload is plain
+    data (a name string, chunk ints, scalar flags), never recursive."""
+    import io
+    import pickle
+
+    buf = io.BytesIO()
+    pickler = pickle.Pickler(buf, protocol=5)
+    pickler.fast = True
+    pickler.dump(obj)
+    out = buf.getvalue()
+    if b"__main__" in out:
+        return _dumps5(obj)
+    return out
+
+
 # ============================================================================
 # Rechunk planning utilities (copied from dask.array.rechunk)
 # ============================================================================
@@ -682,7 +703,7 @@ class Rechunk(ArrayExpr):
         # ``tokenize`` on any pickling failure.
         try:
             non_array = [self.operand(p) for p in self._parameters if p != "array"]
-            return "rechunk-merge-rc1" + hash_buffer_hex(_dumps5((self.array._name, *non_array)))
+            return "rechunk-merge-rc1" + hash_buffer_hex(_dumps5_by_value((self.array._name, *non_array)))
         except Exception:
             return "rechunk-merge-" + tokenize(*self.operands)
 
